@@ -74,6 +74,9 @@ INSERT_SELECT_ALPHA = [
     ("where", ["where", ["cmp", "=", f("u", "y"), raw(3)]]),
     ("order", ["orderby", [f("u", "x")], "asc"]),
     ("limit", ["limit", 4]),
+    ("conflict", ["on_conflict", ["a"]]),
+    ("conflict", ["do_nothing"]),
+    ("conflict", ["do_update", "a", raw(1)]),
 ]
 UPDATE_ALPHA = [
     ("set", ["set", f("t", "a"), raw(1)]),
@@ -363,6 +366,12 @@ def run_case(case):
         return res  # UPDATE ... ORDER BY / LIMIT is MySQL syntax
     if "returning" in fams and not is_pg:
         return res
+    if kind == "insert_select" and "conflict" in fams:
+        calls_ = [alpha[i][1][0] for i in comb if alpha[i][0] == "conflict"]
+        if calls_[0] != "on_conflict" or len(calls_) != 2:
+            return res
+        if "where" in fams:
+            return res  # where() after on_conflict() is routed to the conflict clause: not a commuting call
     if kind == "insert" and "conflict" in fams:
         # the conflict family is a chain on_conflict -> handler -> where: keep only well-ordered sub-chains
         calls = [alpha[i][1][0] for i in comb if alpha[i][0] == "conflict"]
@@ -413,8 +422,8 @@ def run_case(case):
     sqlite_ok = not (SQLITE_UNSUPPORTED & (set(fams) | set(names)))
     if "having" in fams and "group" not in fams:
         sqlite_ok = False  # SQLite wants GROUP BY with HAVING
-    if kind == "insert_select" and "from" not in fams:
-        sqlite_ok = False
+    if kind == "insert_select" and ("from" not in fams or "conflict" in fams):
+        sqlite_ok = False  # (INSERT..SELECT..ON CONFLICT needs a WHERE in SQLite: parsing ambiguity, not demanded)
     if any(alpha[i][1][0] == "where" and "zz" in json.dumps(alpha[i][1]) for i in comb):
         sqlite_ok = False  # refers to a table outside the statement
     if d == "sqlite" and sqlite_ok:
